@@ -33,6 +33,7 @@ type c18Case struct {
 	Nodes    []map[string]string
 	Order    []int
 	ListRev  []bool // per reconcile: the settings list is answered in reverse order (cache order is unspecified)
+	Remove   []int  // settings deleted after everything was reconciled; the others are then reconciled again
 }
 
 func (k c18Case) String() string {
@@ -40,7 +41,7 @@ func (k c18Case) String() string {
 	for _, x := range k.Settings {
 		s = append(s, fmt.Sprintf("%s/%s{t=%d sel=%q ref=%q}", x.NS, x.Name, x.CreatedAt, x.Selector, x.Ref))
 	}
-	return fmt.Sprintf("settings=[%s] nodes=%v order=%v listReversed=%v", strings.Join(s, " "), k.Nodes, k.Order, k.ListRev)
+	return fmt.Sprintf("settings=[%s] nodes=%v order=%v listReversed=%v removedAfterwards=%v", strings.Join(s, " "), k.Nodes, k.Order, k.ListRev, k.Remove)
 }
 
 // c18Bad: selectors that cannot be converted (In without values, an unknown operator, an illegal value).
@@ -101,6 +102,13 @@ func c18Draw(rt *rapid.T) c18Case {
 	}
 	k.Order = rapid.Permutation(idx).Draw(rt, "order")
 	k.ListRev = rapid.SliceOfN(rapid.Bool(), 2*n, 2*n).Draw(rt, "listReversed")
+	if n > 1 && rapid.Bool().Draw(rt, "removal") {
+		for i := 0; i < n; i++ {
+			if rapid.IntRange(0, 2).Draw(rt, fmt.Sprintf("s%d-removed", i)) == 0 && len(k.Remove) < n-1 {
+				k.Remove = append(k.Remove, i)
+			}
+		}
+	}
 	return k
 }
 
@@ -135,6 +143,12 @@ func runC18(k c18Case) (vs []mon.V, err error) {
 		}
 		return perm
 	}
+	var status map[string]edsv1.ExtendedDaemonsetSettingStatus
+	var isValid func(s c18Setting) bool
+	var matches func(s c18Setting, l map[string]string) bool
+	// judge reconciles every setting of the current population twice in the given order and compares the statuses
+	// with the reference verdict
+	judge := func() (stop bool) {
 	for pass := 0; pass < 2; pass++ {
 		for _, i := range k.Order {
 			step = pass*len(k.Order) + 0
@@ -146,14 +160,14 @@ func runC18(k c18Case) (vs []mon.V, err error) {
 			r := c.Reconcile(sim.ActorSetting, k.Settings[i].NS, k.Settings[i].Name)
 			if r.Panic != nil {
 				add("C18/no-panic/"+panicSiteOf(r.Stack), fmt.Sprintf("setting reconcile panicked: %v", r.Panic))
-				return vs, nil
+				return true
 			}
 		}
 	}
 	// ---- reference verdict
 	usable := func(s c18Setting) bool { return !c18Bad(s.Selector) }
 	hasRef := func(s c18Setting) bool { return s.Ref != "nil" && s.Ref != "" }
-	matches := func(s c18Setting, l map[string]string) bool {
+	matches = func(s c18Setting, l map[string]string) bool {
 		sel, e := metav1.LabelSelectorAsSelector(func() *metav1.LabelSelector { x := c18Selector(s.Selector); return &x }())
 		return e == nil && sel.Matches(labels.Set(l))
 	}
@@ -168,13 +182,13 @@ func runC18(k c18Case) (vs []mon.V, err error) {
 		}
 		return false
 	}
-	status := map[string]edsv1.ExtendedDaemonsetSettingStatus{}
+	status = map[string]edsv1.ExtendedDaemonsetSettingStatus{}
 	for _, s := range k.Settings {
 		if o := c.Setting(s.NS, s.Name); o != nil {
 			status[s.NS+"/"+s.Name] = o.Status
 		}
 	}
-	isValid := func(s c18Setting) bool {
+	isValid = func(s c18Setting) bool {
 		return status[s.NS+"/"+s.Name].Status == edsv1.ExtendedDaemonsetSettingStatusValid
 	}
 	for i, s := range k.Settings {
@@ -212,6 +226,45 @@ func runC18(k c18Case) (vs []mon.V, err error) {
 		}
 		if overlapsAny && !isValid(s) && !strings.Contains(st.Error, "conflict") {
 			add("C18/settings/invalid-without-conflict-error", fmt.Sprintf("setting %s overlaps another one and is not valid, but its error %q does not report a conflict", s.Name, st.Error))
+		}
+	}
+	return false
+	}
+	if judge() {
+		return vs, nil
+	}
+	if len(vs) == 0 && len(k.Remove) > 0 {
+		// second phase: some settings are deleted (a competitor goes away); the verdict of the remaining
+		// population must be reached from the statuses the first phase left behind
+		var keep []c18Setting
+		remap := map[int]int{}
+		for i, st := range k.Settings {
+			gone := false
+			for _, r := range k.Remove {
+				if r == i {
+					gone = true
+				}
+			}
+			if gone {
+				c.DeleteSetting(st.NS, st.Name)
+				continue
+			}
+			remap[i] = len(keep)
+			keep = append(keep, st)
+		}
+		var order []int
+		for _, i := range k.Order {
+			if j, ok := remap[i]; ok {
+				order = append(order, j)
+			}
+		}
+		k.Settings, k.Order = keep, order
+		c.Advance(time.Minute)
+		if judge() {
+			return vs, nil
+		}
+		for i := range vs {
+			vs[i].Sig += "/after-removal"
 		}
 	}
 	c.ListOrder = nil
@@ -269,7 +322,7 @@ func runC18(k c18Case) (vs []mon.V, err error) {
 }
 
 func TestC18Settings(t *testing.T) {
-	rec := evid.New("TestC18Settings", "C18", "population of 1-4 settings in one or two namespaces (creation times equal or different, selectors by labels or expressions incl. an unusable one, reference present/empty/absent/other EDS) x 0-4 labelled nodes x a reconcile order, every setting reconciled twice in that order; oracle: malformed => error, overlapping pairs never both valid, well-formed non-overlapping => valid, invalid overlapping => conflict error; then a replica-set sync creates pods whose setting label must name a valid, matching setting of that EDS; non-trivial = two settings overlap on a node, a creation-time tie, or a malformed setting; distinct by case rendering")
+	rec := evid.New("TestC18Settings", "C18", "population of 1-4 settings in one or two namespaces (creation times equal or different, selectors by labels or expressions incl. an unusable one, reference present/empty/absent/other EDS) x 0-4 labelled nodes x a reconcile order, every setting reconciled twice in that order, then optionally some settings are deleted and the others reconciled twice again (the verdict must follow the new population); oracle: malformed => error, overlapping pairs never both valid, well-formed non-overlapping => valid, invalid overlapping => conflict error; then a replica-set sync creates pods whose setting label must name a valid, matching setting of that EDS; non-trivial = two settings overlap on a node, a creation-time tie, or a malformed setting; distinct by case rendering")
 	t.Cleanup(func() {
 		if !t.Failed() {
 			rec.Done()
